@@ -28,4 +28,5 @@ func family(g *gen, a *hx.Args) {
 	for i := 0; i < a.N(12); i++ {
 		g.randomCase(300)
 	}
+	g.lateCases()
 }
